@@ -16,7 +16,7 @@ From MZ.spec Require Import DeflateSpec.
 From MZ.model Require Import DeflateCore.
 From MZ.lib Require Import Arr.
 From MZ.model Require InflateCore.
-From MZ.proofs Require Import DeflateCounts StoredSpec StoredStream StoredSchedules InflateStoredChunks StoredStreamEndToEnd.
+From MZ.proofs Require Import DeflateCounts StoredSpec StoredStream StoredSchedules InflateStoredChunks StoredStreamEndToEnd StoredStreamTotal.
 Import ListNotations.
 Local Open Scope N_scope.
 
@@ -81,3 +81,15 @@ Example C02_schedule_then_slices :
   | _ => False
   end.
 Proof. vm_compute. repeat split; reflexivity. Qed.
+
+(* ... and the "never panic" clause at level 0, for every input and every schedule of compress() calls (any chunks,
+   any output lengths, flush None / Sync / Full / Finish): the caller's loop over the compressor model never yields
+   a Panic value - no debug-profile overflow, bounds or assertion site of the bit writer, flush_block, the stored
+   engine or compress_inner is reachable (flush_block is an equation for every legal flush; the engine's guards
+   follow from the schedule invariant plus "bytes of the open block <= dictionary size") *)
+Theorem C02_level0_every_schedule_never_panics_partial :
+  forall (data : list N) (flags wb : N) (sched : list (N * N * N)),
+  hasf flags FLAG_RAW = true -> wb <= 15 ->
+  Forall (fun it => legal_flush (snd it)) sched ->
+  match drive (comp_new flags wb) data sched [] 0 with Panic _ => False | _ => True end.
+Proof. exact level0_every_schedule_never_panics. Qed.
